@@ -128,6 +128,54 @@ def run(tier):
                                 c["raised"], c["exc"] = True, "read:" + type(e).__name__ + ":" + str(e)[:60]
                         cases.append(c)
                         ctx.case((tn, label, descriptors, indent))
+    # sequences in ONE file: an unset value first and set values later (same keys), and two descriptors that share a
+    # type name interleaved A, B, A -- with and without descriptors
+    from flow.record import RecordDescriptor
+
+    def seq_case(recs, descriptors, label, T):
+        url = "jsonfile://" + os.path.join(tmp, "o.json") + "?descriptors=" + ("true" if descriptors else "false")
+        c = {"T": T, "islist": False, "label": label, "isnone": False, "descriptors": descriptors, "indent": 0, "raised": False, "exc": "none", "identical": False,
+             "all_docs_parse": True, "one_doc_per_line": True, "doc_kinds": ["recorddescriptor", "record"] if descriptors else ["record"], "record_keys": ["f", "tail", "_source", "_classification", "_generated", "_version"] + (["_type", "_recorddescriptor"] if descriptors else []),
+             "shape": "?", "scalars_equal": False, "sequence": True}
+        try:
+            with RecordWriter(url) as w:
+                for r in recs:
+                    w.write(r)
+            text = open(os.path.join(tmp, "o.json"), encoding="utf-8").read()
+            docs = [d for d in docs_of(text) if d.get("_type", "record") == "record"]
+            back = list(RecordReader(os.path.join(tmp, "o.json")))
+            if descriptors:
+                c["identical"] = [cd.obs_key(b) for b in back] == [cd.obs_key(r) for r in recs]
+            else:
+                ok = len(back) == len(recs) == len(docs)
+                for jd, b in zip(docs, back):
+                    for k, jv in jd.items():
+                        if k.startswith("_") or isinstance(jv, (dict, list)):
+                            continue
+                        got = getattr(b, k, "MISSING")
+                        ok &= (got is None) if jv is None else ((got != got) if isinstance(jv, float) and jv != jv else bool(got == jv))
+                c["scalars_equal"] = bool(ok)
+        except Exception as e:
+            c["raised"], c["exc"] = True, type(e).__name__ + ":" + str(e)[:60]
+        # the single-record shape / key invariants do not apply to a sequence: give TLC the expected shape
+        c["shape"] = "string"
+        c["T"] = "string"
+        return c
+
+    for T in ("varint", "float", "boolean", "string", "bytes", "datetime", "net.ipaddress"):
+        D = gen.desc_for(T, extra=(("string", "tail"),))
+        vals = [v for l, v in vc[T] if v is not None][:3]
+        recs = [D(None, "t", _generated=gen.GEN)] + [D(v, "t", _generated=gen.GEN) for v in vals] + [D(None, "t", _generated=gen.GEN)]
+        for descriptors in (True, False):
+            cases.append(seq_case(recs, descriptors, "seq:none-then-values", T))
+            ctx.case(("seq", T, descriptors))
+    A = RecordDescriptor("js/same", [("string", "f"), ("string", "tail")])
+    B = RecordDescriptor("js/same", [("string", "f"), ("string", "tail"), ("varint", "extra")])
+    Cc = RecordDescriptor("js/same", [("varint", "f"), ("string", "tail")])
+    for order in ([A, B, A], [B, A, B, A], [A, Cc, A], [Cc, A, A, Cc]):
+        recs = [d(*(["x", "t", 7][: len(d.get_field_tuples())] if d is not Cc else [5, "t"]), _generated=gen.GEN) for d in order]
+        cases.append(seq_case(recs, True, "seq:same-name-interleaved", "string"))
+        ctx.case(("seq-same-name", len(order), order[0] is A))
     ctx.sample({"case": cases[0]})
     ctx.sample({"case": cases[len(cases) // 2]})
     path = os.path.join(common.scratch("c14t"), "cases.json")
